@@ -1,8 +1,7 @@
 (* Bootstrap establishes the simulation relation: for every table / store / defaults of the
-   envelope outside the two bootstrap finding classes of C11 (port lists with anything but one
-   plain value; a comma-list default that contains a comma), the model's _do_setup succeeds and
-   leaves a state in which every option Tor lists reads as Tor's value parsed by its declared type
-   (its default when unset) and nothing is pending. *)
+   envelope the model's _do_setup succeeds and leaves a state in which every option Tor lists
+   reads as Tor's value parsed by its declared type (its default when unset; a port list that is
+   unset or "auto" as its default lines: Spec.CfgOracle.eff_store) and nothing is pending. *)
 From Coq Require Import String.
 From Coq Require Import List Bool Ascii Arith NArith ZArith Lia.
 From TxVerif Require Import Lib.Bytes Lib.CfgLib Spec.CfgTypes Spec.TorStore Spec.CfgOracle Spec.C10 Spec.C11
@@ -143,6 +142,39 @@ Proof.
     cbn [orb]. discriminate.
 Qed.
 
+Lemma nodup_ci_NoDup l : nodup_ci l = true -> NoDup l.
+Proof.
+  induction l as [|x l IH]; [constructor|]. cbn [nodup_ci]. intros H. apply andb_true_iff in H as [H1 H2].
+  apply negb_true_iff in H1. constructor; [now apply mem_ci_false_not_in|now apply IH].
+Qed.
+
+(* the store of reading (2): which keys it changes *)
+Section EffFold.
+  Variable f : bytes * kind -> option (list bytes).
+  Let step := fun (s : store) (o : bytes * kind) => match f o with Some v => dset (fst o) v s | None => s end.
+
+  Lemma fold_eff_notin : forall l s cn, ~ In cn (map fst l) -> store_get (fold_left step l s) cn = store_get s cn.
+  Proof.
+    induction l as [|o l IH]; intros s cn Hn; [reflexivity|]. cbn [fold_left].
+    rewrite IH by (intros X; apply Hn; now right). unfold step.
+    destruct (f o); [|reflexivity]. unfold store_get. rewrite dget_dset_other; [reflexivity|].
+    intros E. apply Hn. now left.
+  Qed.
+
+  Lemma fold_eff_in : forall l s cn k, NoDup (map fst l) -> In (cn, k) l ->
+    store_get (fold_left step l s) cn = match f (cn, k) with Some v => v | None => store_get s cn end.
+  Proof.
+    induction l as [|o l IH]; intros s cn k Hnd Hin; [destruct Hin|]. cbn [fold_left].
+    inversion Hnd as [|? ? Hn Hnd']. subst. destruct Hin as [E|Hin].
+    - subst o. cbn [fst] in Hn. rewrite fold_eff_notin by assumption. unfold step.
+      destruct (f (cn, k)); [|reflexivity]. unfold store_get. cbn [fst]. now rewrite dget_dset_same.
+    - rewrite (IH _ cn k Hnd' Hin). unfold step.
+      destruct (f (cn, k)); [reflexivity|]. destruct (f o); [|reflexivity].
+      unfold store_get. rewrite dget_dset_other; [reflexivity|].
+      intros E. apply Hn. rewrite E. now apply (in_map fst) in Hin.
+  Qed.
+End EffFold.
+
 Section Boot.
   Variable i : cfg_input.
   Let table := i_table i.
@@ -150,19 +182,29 @@ Section Boot.
   Let defaults := i_defaults i.
   Let opts := options table.
   Let ddict := match i_defaults i with None => [] | Some ls => fold_left add_default ls [] end.
+  (* what the view is compared with: reading (2) of Spec.CfgOracle *)
+  Let estore := eff_store i.
 
   Hypothesis Htab : table_ok table = true.
   Hypothesis Hdfl : defaults_ok opts defaults = true.
-  Hypothesis Hcomma : forall cn d, In (cn, KComma) opts -> In d (default_lines defaults cn) -> memb COMMA d = false.
 
   (* the state after the rows that announce the options [po] *)
   Definition binv (st : mst) (po : list (bytes * kind)) : Prop :=
     map fst (m_parsers st) = map fst po /\
     map fst (m_config st) = map fst po /\
     (forall cn k, In (cn, k) po -> dget cn (m_parsers st) = Some (ty_of k)) /\
-    (forall cn k, In (cn, k) po -> synced defaults st store_ cn k) /\
+    (forall cn k, In (cn, k) po -> synced defaults st estore cn k) /\
     m_unsaved st = [] /\
-    m_defaults st = ddict.
+    m_defaults st = ddict /\
+    (* list_parsers: exactly the list-valued options announced so far (and txtorcon's two own names) *)
+    (forall cn k, In (cn, k) po -> mem_bytes cn (m_listp st) = is_list_kind k) /\
+    (forall x, mem_bytes x (m_listp st) = true -> In x (map fst po) \/ In x [bs "hiddenservices"; bs "ephemeralonionservices"]).
+
+  Lemma own_names_reserved x : In x [bs "hiddenservices"; bs "ephemeralonionservices"] -> mem_ci x reserved_names = true.
+  Proof. intros [<-|[<-|[]]]; vm_compute; reflexivity. Qed.
+
+  Lemma mem_bytes_snoc x l c : mem_bytes x (l ++ [c]) = mem_bytes x l || beqb c x.
+  Proof. induction l as [|y l IH]; cbn [app mem_bytes]; [now rewrite orb_false_r|]. now rewrite IH, orb_assoc. Qed.
 
   Lemma fresh_real_name st po cn : binv st po -> mem_ci cn (map fst po) = false -> find_real_name st cn = cn.
   Proof.
@@ -175,18 +217,19 @@ Section Boot.
 
   (* one `self.parsers[cn] = ...; self.config[cn] = v` *)
   Lemma set_option st po cn k v lp :
-    binv st po -> mem_ci cn (map fst po) = false ->
-    (forall st1, dget cn (m_config st1) = Some v -> m_defaults st1 = ddict -> synced defaults st1 store_ cn k) ->
+    binv st po -> mem_ci cn (map fst po) = false -> mem_ci cn reserved_names = false ->
+    lp = (if is_list_kind k then m_listp st ++ [cn] else m_listp st) ->
+    (forall st1, dget cn (m_config st1) = Some v -> m_defaults st1 = ddict -> synced defaults st1 estore cn k) ->
     binv (set_config {| m_parsers := dset cn (ty_of k) (m_parsers st); m_listp := lp; m_defaults := m_defaults st;
                         m_config := m_config st; m_unsaved := m_unsaved st |} cn v) (po ++ [(cn, k)]).
   Proof.
-    intros [H1 [H2 [H3 [H4 [H5 H6]]]]] Hf Hs.
+    intros [H1 [H2 [H3 [H4 [H5 [H6 [H7 H8]]]]]]] Hf Hres -> Hs.
     pose proof (mem_ci_false_not_in _ _ Hf) as Hni.
     assert (dget cn (m_parsers st) = None) as Hpn by (apply dget_not_in; now rewrite H1).
     assert (dget cn (m_config st) = None) as Hcn by (apply dget_not_in; now rewrite H2).
     unfold set_config. cbn [m_parsers m_config m_unsaved m_defaults m_listp]. rewrite H5. cbn [dget].
-    unfold binv. cbn [m_parsers m_config m_unsaved m_defaults].
-    split; [|split; [|split; [|split; [|split]]]]; try assumption; try reflexivity.
+    unfold binv. cbn [m_parsers m_config m_unsaved m_defaults m_listp].
+    split; [|split; [|split; [|split; [|split; [|split; [|split]]]]]]; try assumption; try reflexivity.
     - rewrite keys_dset_new by assumption. now rewrite map_app, H1.
     - rewrite keys_dset_new by assumption. now rewrite map_app, H2.
     - intros c k0 Hin. apply in_app_or in Hin as [Hin|[Hin|[]]].
@@ -196,14 +239,29 @@ Section Boot.
       + eapply synced_frame; [| |exact (H4 _ _ Hin)]; cbn [m_config m_defaults]; [|reflexivity].
         apply dget_dset_other. intros ->. apply Hni. now apply (in_map fst) in Hin.
       + inversion Hin. subst. apply Hs; cbn [m_config m_defaults]; [apply dget_dset_same|assumption].
+    - intros c k0 Hin. apply in_app_or in Hin as [Hin|[Hin|[]]].
+      + assert (c <> cn) as Hne by (intros ->; apply Hni; now apply (in_map fst) in Hin).
+        rewrite <- (H7 _ _ Hin). destruct (is_list_kind k); [|reflexivity].
+        rewrite mem_bytes_snoc. rewrite (beqb_neq_false cn c) by congruence. apply orb_false_r.
+      + inversion Hin. subst c k0. destruct (is_list_kind k) eqn:Elk.
+        * rewrite mem_bytes_snoc, beqb_refl. apply orb_true_r.
+        * destruct (mem_bytes cn (m_listp st)) eqn:Em; [|reflexivity]. exfalso.
+          destruct (H8 _ Em) as [X|X]; [contradiction|]. rewrite (own_names_reserved _ X) in Hres. discriminate.
+    - intros x Hx. rewrite map_app. cbn [map fst].
+      assert (mem_bytes x (m_listp st) = true \/ x = cn) as [X|X].
+      { destruct (is_list_kind k); [|now left]. rewrite mem_bytes_snoc in Hx. apply orb_true_iff in Hx as [Hx|Hx]; [now left|].
+        right. apply beqb_eq in Hx. now symmetry. }
+      + destruct (H8 _ X) as [Y|Y]; [left; apply in_or_app; now left|now right].
+      + left. apply in_or_app. right. now left.
   Qed.
 
   Lemma set_option' st po cn k v lp d :
-    binv st po -> mem_ci cn (map fst po) = false -> d = m_defaults st ->
-    (forall st1, dget cn (m_config st1) = Some v -> m_defaults st1 = ddict -> synced defaults st1 store_ cn k) ->
+    binv st po -> mem_ci cn (map fst po) = false -> mem_ci cn reserved_names = false ->
+    lp = (if is_list_kind k then m_listp st ++ [cn] else m_listp st) -> d = m_defaults st ->
+    (forall st1, dget cn (m_config st1) = Some v -> m_defaults st1 = ddict -> synced defaults st1 estore cn k) ->
     binv (set_config {| m_parsers := dset cn (ty_of k) (m_parsers st); m_listp := lp; m_defaults := d;
                         m_config := m_config st; m_unsaved := m_unsaved st |} cn v) (po ++ [(cn, k)]).
-  Proof. intros Hb Hf -> Hs. now apply set_option. Qed.
+  Proof. intros Hb Hf Hres Hlp -> Hs. now apply set_option. Qed.
 
   (* ---- the view of each kind of option, as _do_setup computes it ---- *)
   Lemma ddict_get cn : dget cn ddict = dval_of (default_lines defaults cn).
@@ -275,9 +333,9 @@ Section Boot.
     unfold dfl_atoms. rewrite ddict_get. destruct (default_lines defaults cn) as [|a [|b t]]; reflexivity.
   Qed.
 
-  (* an unset list option: the view is the defaults *)
+  (* an unset line list (declared LineList, or a port list): the view is the default lines *)
   Lemma synced_unset_list st1 cn k vals :
-    In (cn, k) opts -> (k = KLine \/ k = KComma) -> nonempty_values vals = [] ->
+    In (cn, k) opts -> (k = KLine \/ k = KPorts) -> nonempty_values vals = [] ->
     dget cn (m_config st1) = Some (CList true (dfl_atoms cn)) -> synced_at defaults st1 vals cn k.
   Proof.
     intros Hin Hk Hne Hc. rewrite dfl_atoms_eq in Hc.
@@ -286,18 +344,50 @@ Section Boot.
     split.
     - unfold view_of. rewrite Hc. cbn [rval_of_gotten]. rewrite map_atom_text_AStr.
       unfold typed_value. rewrite Hne.
-      destruct Hk as [-> | ->].
-      + now rewrite (map_strip_tor _ Hd).
-      + f_equal. f_equal.
-        pose proof (defaults_shape cn KComma Hin) as Hs. cbn in Hs.
-        destruct (default_lines defaults cn) as [|d [|d2 t]] eqn:E; [reflexivity| |cbn in Hs; lia].
-        cbn [map concat]. rewrite app_nil_r. unfold split_comma.
-        assert (memb COMMA d = false) as Hnc by (apply (Hcomma cn d Hin); rewrite E; now left).
-        rewrite (split_on_no_sep _ _ Hnc). cbn.
-        now rewrite (proj1 (proj2 (tor_value_facts _ (Hd d (or_introl eq_refl))))).
+      destruct Hk as [-> | ->]; now rewrite (map_strip_tor _ Hd).
     - intros _. exists (default_lines defaults cn). split; [assumption|].
       apply forallb_forall. intros a Ha. apply in_map_iff in Ha as [d [<- Hdi]].
-      apply tor_fine; [now apply Hd|]. intros ->. now apply (Hcomma cn d Hin).
+      apply tor_fine; [now apply Hd|]. intros ->. destruct Hk; discriminate.
+  Qed.
+
+  Lemma defaults_comma_ok cn d : In (cn, KComma) opts -> default_lines defaults cn = [d] -> comma_text_ok d = true.
+  Proof.
+    intros Hin Hd. unfold defaults_ok in Hdfl. fold defaults in Hdfl. destruct defaults as [ls|] eqn:E; [|discriminate Hd].
+    apply andb_true_iff in Hdfl as [_ H]. pose proof (proj1 (forallb_forall _ _) H (cn, KComma) Hin) as X.
+    cbn [fst snd] in X. now rewrite Hd in X.
+  Qed.
+
+  (* `defaults.get(rn, [])`, parsed by the option's type when it is a single line *)
+  Lemma list_default_ok cn k :
+    In (cn, k) opts -> (k = KLine \/ k = KComma) ->
+    exists l', list_default (pk_of k) (dget cn ddict) = Ok l' /\
+      forall st1 vals, nonempty_values vals = [] -> dget cn (m_config st1) = Some (CList true l') ->
+                       synced_at defaults st1 vals cn k.
+  Proof.
+    intros Hin Hk.
+    assert (forall d, In d (default_lines defaults cn) -> tor_value_ok d = true) as Hd
+      by (intros d Hi; eapply defaults_values_ok; eassumption).
+    assert (dfl_atoms cn = map AStr (default_lines defaults cn)) as Hda by apply dfl_atoms_eq.
+    unfold dfl_atoms in Hda. rewrite ddict_get in Hda |- *.
+    destruct (default_lines defaults cn) as [|d [|d2 t]] eqn:E; cbn [dval_of list_default] in Hda |- *.
+    - exists []. split; [reflexivity|]. intros st1 vals Hne Hc. split.
+      + unfold view_of. rewrite Hc. cbn [rval_of_gotten map]. unfold typed_value. rewrite Hne, E.
+        destruct Hk as [-> | ->]; reflexivity.
+      + intros _. exists []. split; [exact Hc|reflexivity].
+    - pose proof (Hd d (or_introl eq_refl)) as Hdo.
+      destruct Hk as [-> | ->]; cbn [pk_of ty_of fst].
+      + destruct (tor_value_facts _ Hdo) as [_ [Hs [_ [_ Hlf]]]].
+        exists [AStr d]. split; [cbn [parse bind]; now rewrite (split_on_no_sep _ _ Hlf); cbn; rewrite Hs|].
+        intros st1 vals Hne Hc. apply synced_unset_list; auto.
+        unfold dfl_atoms. rewrite ddict_get, E. exact Hc.
+      + exists (map AStr (split_comma d)). split; [change PComma with (pk_of KComma); now rewrite parse_comma_text|].
+        intros st1 vals Hne Hc. eapply synced_comma_default_at; try eassumption.
+        now apply defaults_comma_ok with (cn := cn).
+    - destruct Hk as [-> | ->].
+      + exists (map AStr (d :: d2 :: t)). split; [reflexivity|].
+        intros st1 vals Hne Hc. apply synced_unset_list; auto.
+        unfold dfl_atoms. rewrite ddict_get, E. exact Hc.
+      + exfalso. pose proof (defaults_shape cn KComma Hin) as Hs. rewrite E in Hs. cbn in Hs. lia.
   Qed.
 
   Lemma split_on_single c s p : split_on c s = [p] -> s = p /\ memb c s = false.
@@ -318,49 +408,47 @@ Section Boot.
   Lemma boot_list st1 cn k vals :
     In (cn, k) opts -> (k = KLine \/ k = KComma) ->
     tor_values_ok k vals = true ->
-    exists l, parse (pk_of k) (getconf_value vals) = Ok (PList l) /\
-      (dget cn (m_config st1) = Some (CList true (if pyval_eq_default_list (PList l) then dfl_atoms cn else l)) ->
-       synced_at defaults st1 vals cn k).
+    exists l l', parse (pk_of k) (getconf_value vals) = Ok (PList l) /\
+      (if pyval_eq_default_list (PList l) then list_default (pk_of k) (dget cn ddict) else Ok l) = Ok l' /\
+      (dget cn (m_config st1) = Some (CList true l') -> synced_at defaults st1 vals cn k).
   Proof.
     intros Hin Hk Hv.
     destruct vals as [|v0 vs].
     - (* unset *)
-      cbn [getconf_value]. destruct Hk as [-> | ->]; cbn [pk_of ty_of fst].
-      + rewrite lines_of_default. eexists. split; [reflexivity|].
-        assert (pyval_eq_default_list (PList [AStr DEFAULT_VALUE]) = true) as -> by (vm_compute; reflexivity).
-        apply synced_unset_list; auto.
-      + rewrite comma_of_default. eexists. split; [reflexivity|].
-        assert (pyval_eq_default_list (PList [AStr DEFAULT_VALUE]) = true) as -> by (vm_compute; reflexivity).
-        apply synced_unset_list; auto.
+      destruct (list_default_ok cn k Hin Hk) as [l' [Hl' Hsy]].
+      exists [AStr DEFAULT_VALUE], l'. split.
+      { cbn [getconf_value]. destruct Hk as [-> | ->]; cbn [pk_of ty_of fst]; [apply lines_of_default|apply comma_of_default]. }
+      assert (pyval_eq_default_list (PList [AStr DEFAULT_VALUE]) = true) as -> by (vm_compute; reflexivity).
+      split; [exact Hl'|]. intros Hc. now apply Hsy.
     - assert (forall v, In v (v0 :: vs) -> tor_value_ok v = true) as Hall.
       { intros v Hi. destruct Hk as [-> | ->]; cbn [tor_values_ok] in Hv.
         - exact (proj1 (forallb_forall _ _) Hv v Hi).
         - destruct vs; [|discriminate]. destruct Hi as [<-|[]]. now apply andb_true_iff in Hv as [Hv _]. }
       destruct Hk as [-> | ->]; cbn [pk_of ty_of fst].
       + (* line list *)
-        exists (map AStr (v0 :: vs)). split.
+        exists (map AStr (v0 :: vs)), (map AStr (v0 :: vs)). split; [|split].
         * destruct vs as [|v1 vs'].
           -- cbn [getconf_value map]. rewrite (tor_value_unquote _ (Hall v0 (or_introl eq_refl))).
              destruct (tor_value_facts _ (Hall v0 (or_introl eq_refl))) as [_ [Hs [_ [_ Hlf]]]].
              cbn [parse]. now rewrite (split_on_no_sep _ _ Hlf); cbn; rewrite Hs.
           -- unfold getconf_value. rewrite (map_unquote_tor _ Hall). cbn [parse]. rewrite map_map. cbn [atom_text].
              f_equal. f_equal. rewrite <- (map_map strip AStr). now rewrite (map_strip_tor _ Hall).
-        * assert (pyval_eq_default_list (PList (map AStr (v0 :: vs))) = false) as ->.
-          { cbn [map pyval_eq_default_list]. destruct vs; [|reflexivity].
-            exact (proj1 (proj2 (proj2 (tor_value_facts _ (Hall v0 (or_introl eq_refl)))))). }
-          intros Hc. apply (synced_list_at defaults st1 (v0 :: vs) cn KLine (map AStr (v0 :: vs))); [reflexivity| |cbn; discriminate|exact Hc|].
+        * assert (pyval_eq_default_list (PList (map AStr (v0 :: vs))) = false) as ->; [|reflexivity].
+          cbn [map pyval_eq_default_list]. destruct vs; [|reflexivity].
+          exact (proj1 (proj2 (proj2 (tor_value_facts _ (Hall v0 (or_introl eq_refl)))))).
+        * intros Hc. apply (synced_list_at defaults st1 (v0 :: vs) cn KLine (map AStr (v0 :: vs))); [reflexivity| |cbn; discriminate|exact Hc|].
           -- apply forallb_forall. intros a Ha. apply in_map_iff in Ha as [v [<- Hi]]. apply tor_fine; [now apply Hall|discriminate].
           -- now rewrite map_atom_text_AStr.
       + (* comma list: one value *)
         cbn [tor_values_ok] in Hv. destruct vs; [|discriminate]. apply andb_true_iff in Hv as [Htv Hct].
-        exists (map AStr (split_comma v0)). split.
+        exists (map AStr (split_comma v0)), (map AStr (split_comma v0)). split; [|split].
         * cbn [getconf_value]. rewrite (tor_value_unquote _ Htv). apply parse_comma_text.
-        * assert (pyval_eq_default_list (PList (map AStr (split_comma v0))) = false) as ->.
-          { destruct (pyval_eq_default_list (PList (map AStr (split_comma v0)))) eqn:E; [|reflexivity]. exfalso.
-            unfold split_comma in E. destruct (split_on COMMA v0) as [|p [|q t]] eqn:Esp; cbn in E; try discriminate.
-            apply beqb_eq in E. destruct (split_on_single _ _ _ Esp) as [<- _].
-            destruct (tor_value_facts _ Htv) as [_ [Hs [Hd _]]]. rewrite Hs in E. rewrite E, beqb_refl in Hd. discriminate. }
-          intros Hc. eapply synced_comma_text_at; [exact Hct|exact Hc|reflexivity].
+        * assert (pyval_eq_default_list (PList (map AStr (split_comma v0))) = false) as ->; [|reflexivity].
+          destruct (pyval_eq_default_list (PList (map AStr (split_comma v0)))) eqn:E; [|reflexivity]. exfalso.
+          unfold split_comma in E. destruct (split_on COMMA v0) as [|p [|q t]] eqn:Esp; cbn in E; try discriminate.
+          apply beqb_eq in E. destruct (split_on_single _ _ _ Esp) as [<- _].
+          destruct (tor_value_facts _ Htv) as [_ [Hs [Hd _]]]. rewrite Hs in E. rewrite E, beqb_refl in Hd. discriminate.
+        * intros Hc. eapply synced_comma_text_at; [exact Hct|exact Hc|reflexivity].
   Qed.
 
   (* what _do_setup computes for a scalar option *)
@@ -439,17 +527,9 @@ Section Boot.
       destruct k; try discriminate Hl; try congruence; now rewrite Hps.
   Qed.
 
-  Lemma boot_ports st1 cn v0 :
-    In (cn, KPorts) opts -> tor_value_ok v0 = true ->
-    dget cn (m_config st1) = Some (CList true [AStr v0]) -> synced_at defaults st1 [v0] cn KPorts.
-  Proof.
-    intros Hin Htv Hc. apply (synced_list_at defaults st1 [v0] cn KPorts [AStr v0]); [reflexivity| |discriminate|exact Hc|reflexivity].
-    cbn [forallb]. rewrite (tor_fine KPorts v0 Htv); [reflexivity|discriminate].
-  Qed.
-
   (* ---- what the envelope says about Tor's store at attach time ---- *)
   Hypothesis Hstore : forall cn k, In (cn, k) opts -> tor_values_ok k (store_get store_ cn) = true.
-  Hypothesis Hports : forall cn, In (cn, KPorts) opts -> exists v, store_get store_ cn = [v] /\ beqb v auto_word = false /\ v <> [].
+  Hypothesis Hdunder : forall cn v, In (cn, KPorts) opts -> In v (store_get store_ (dunder cn)) -> tor_value_ok v = true.
   Hypothesis Hstore2 : forall cn k v, In (cn, k) opts -> In v (store_get store_ cn) -> v = [] \/ tor_value_ok v = true.
 
   Lemma kind_not_ports t k : kind_of_type t = Some (Some k) -> k <> KPorts.
@@ -460,6 +540,106 @@ Section Boot.
 
   Lemma opts_nodup : nodup_ci (map fst opts) = true.
   Proof. unfold table_ok in Htab. apply andb_true_iff in Htab as [H _]. apply andb_true_iff in H as [_ H]. exact H. Qed.
+
+  Lemma opt_facts cn k : In (cn, k) opts -> mem_ci cn reserved_names = false /\ name_ok cn = true.
+  Proof. exact (in_opts_facts i Htab cn k). Qed.
+
+  (* the store the view is compared with differs from Tor's report only on port lists *)
+  Lemma estore_get cn k : In (cn, k) opts ->
+    store_get estore cn = match eff_value i (cn, k) with Some v => v | None => store_get store_ cn end.
+  Proof. intros Hin. unfold estore, eff_store. apply fold_eff_in; [apply nodup_ci_NoDup, opts_nodup|exact Hin]. Qed.
+
+  Lemma estore_other cn k : In (cn, k) opts -> k <> KPorts -> store_get estore cn = store_get store_ cn.
+  Proof. intros Hin Hk. rewrite (estore_get cn k Hin). unfold eff_value. cbn [snd]. destruct k; try reflexivity. congruence. Qed.
+
+  (* ---- port lists ---- *)
+  Lemma nonempty_values_tor vs : (forall v, In v vs -> tor_value_ok v = true) -> nonempty_values vs = vs.
+  Proof.
+    induction vs as [|v vs IH]; [reflexivity|]. intros H. cbn [nonempty_values filter].
+    destruct (tor_value_facts _ (H v (or_introl eq_refl))) as [Hne _].
+    destruct v; [congruence|]. f_equal. apply IH. intros x Hx. apply H. now right.
+  Qed.
+
+  Lemma ports_view vs : (forall v, In v vs -> tor_value_ok v = true) -> vs <> [] -> forall dls,
+    typed_value KPorts vs dls = Some (RList true vs).
+  Proof.
+    intros H Hne dls. unfold typed_value. rewrite (nonempty_values_tor _ H).
+    destruct vs; [congruence|]. now rewrite (map_strip_tor _ H).
+  Qed.
+
+  Lemma getconf_many v0 v1 vs : (forall v, In v (v0 :: v1 :: vs) -> tor_value_ok v = true) ->
+    getconf_value (v0 :: v1 :: vs) = PList (map AStr (v0 :: v1 :: vs)).
+  Proof. intros H. unfold getconf_value. now rewrite (map_unquote_tor _ H). Qed.
+
+  Lemma ports_lines st1 cn evals L :
+    (forall v, In v L -> tor_value_ok v = true) ->
+    typed_value KPorts evals (default_lines defaults cn) = Some (RList true L) ->
+    dget cn (m_config st1) = Some (CList true (map AStr L)) -> synced_at defaults st1 evals cn KPorts.
+  Proof.
+    intros HL Ht Hc. split.
+    - unfold view_of. rewrite Hc. cbn [rval_of_gotten]. now rewrite map_atom_text_AStr, Ht.
+    - intros _. exists L. split; [exact Hc|]. apply forallb_forall. intros a Ha.
+      apply in_map_iff in Ha as [v [<- Hv]]. apply tor_fine; [auto|discriminate].
+  Qed.
+
+  (* unset or "auto": the config/defaults lines, else what __<X> holds *)
+  Lemma boot_ports_default cn :
+    In (cn, KPorts) opts ->
+    exists L,
+      aslist (match dget cn ddict with
+              | Some d => pyval_of_dval d
+              | None => let d := getconf_value (store_get store_ (bs "__" ++ cn)) in
+                        if pyval_is_str d [] || pyval_is_str d DEFAULT_VALUE then PList [] else d
+              end) = map AStr L /\
+      (forall v, In v L -> tor_value_ok v = true) /\
+      typed_value KPorts (if is_nil (default_lines defaults cn) then store_get store_ (dunder cn) else [])
+                  (default_lines defaults cn) = Some (RList true L).
+  Proof.
+    intros Hin.
+    assert (forall d, In d (default_lines defaults cn) -> tor_value_ok d = true) as Hd
+      by (intros d Hi; eapply defaults_values_ok; eassumption).
+    rewrite ddict_get.
+    destruct (default_lines defaults cn) as [|d [|d2 t]] eqn:E; cbn [dval_of is_nil pyval_of_dval aslist].
+    - change (bs "__" ++ cn) with (dunder cn). pose proof (Hdunder cn) as Hdu.
+      destruct (store_get store_ (dunder cn)) as [|x [|y vs]] eqn:Ev.
+      + exists []. cbv zeta. cbn [getconf_value pyval_is_str]. rewrite beqb_refl, orb_true_r. repeat split; [intros v []].
+      + assert (tor_value_ok x = true) as Hx by (apply Hdu; [assumption|now left]).
+        destruct (tor_value_facts _ Hx) as [Hne [_ [Hnd [Hu _]]]].
+        exists [x]. cbv zeta. cbn [getconf_value]. rewrite Hu. cbn [pyval_is_str]. rewrite Hnd.
+        assert (beqb x [] = false) as -> by (destruct x; [congruence|reflexivity]). cbn [orb aslist map].
+        split; [reflexivity|]. split; [intros v [<-|[]]; exact Hx|].
+        apply ports_view; [intros v [<-|[]]; exact Hx|discriminate].
+      + assert (forall v, In v (x :: y :: vs) -> tor_value_ok v = true) as Hall by (intros v Hv; now apply Hdu).
+        exists (x :: y :: vs). cbv zeta. rewrite (getconf_many _ _ _ Hall). cbn [pyval_is_str orb aslist].
+        split; [reflexivity|]. split; [exact Hall|]. apply ports_view; [exact Hall|discriminate].
+    - exists [d]. split; [reflexivity|]. split; [intros v [<-|[]]; apply Hd; now left|].
+      unfold typed_value. cbn [nonempty_values filter]. now rewrite (map_strip_tor _ Hd).
+    - exists (d :: d2 :: t). split; [reflexivity|]. split; [exact Hd|].
+      unfold typed_value. cbn [nonempty_values filter]. now rewrite (map_strip_tor _ Hd).
+  Qed.
+
+  Lemma boot_ports cn :
+    In (cn, KPorts) opts ->
+    exists L,
+      aslist (ports_initial store_ ddict cn) = map AStr L /\
+      (forall v, In v L -> tor_value_ok v = true) /\
+      typed_value KPorts (store_get estore cn) (default_lines defaults cn) = Some (RList true L).
+  Proof.
+    intros Hin. rewrite (estore_get cn KPorts Hin). unfold eff_value. cbn [snd fst]. fold store_. fold defaults.
+    assert (forall v, In v (store_get store_ cn) -> tor_value_ok v = true) as Hall.
+    { intros v Hv. pose proof (Hstore cn KPorts Hin) as X. cbn [tor_values_ok] in X.
+      exact (proj1 (forallb_forall _ _) X v Hv). }
+    unfold ports_initial, unset_or_auto. rewrite (nonempty_values_tor _ Hall).
+    destruct (store_get store_ cn) as [|v0 [|v1 vs]] eqn:Ev; cbv zeta.
+    - cbn [getconf_value pyval_is_str]. rewrite beqb_refl. cbn [orb]. now apply boot_ports_default.
+    - pose proof (Hall v0 (or_introl eq_refl)) as Hv0.
+      destruct (tor_value_facts _ Hv0) as [Hne [_ [Hnd [Hu _]]]].
+      cbn [getconf_value]. rewrite Hu. cbn [pyval_is_str]. rewrite Hnd, auto_agree. cbn [orb].
+      destruct (beqb v0 auto_word); [now apply boot_ports_default|].
+      exists [v0]. split; [reflexivity|]. split; [exact Hall|]. apply ports_view; [exact Hall|discriminate].
+    - rewrite (getconf_many _ _ _ Hall). cbn [pyval_is_str orb aslist].
+      exists (v0 :: v1 :: vs). split; [reflexivity|]. split; [exact Hall|]. apply ports_view; [exact Hall|discriminate].
+  Qed.
 
   Lemma boot_ports_row st po n rest_opts :
     binv st po ->
@@ -475,14 +655,12 @@ Section Boot.
       { pose proof opts_nodup as Hnd. rewrite Hopts in Hnd. cbn [app] in Hnd. rewrite map_app in Hnd. cbn [map fst] in Hnd.
         exact (nodup_ci_app_fresh _ _ _ Hnd). }
       cbv zeta. rewrite (fresh_real_name _ _ _ Hb Hfresh), port_list_parser.
-      destruct (Hports base Hin) as [v0 [Es [Ha Hne0]]].
-      assert (tor_value_ok v0 = true) as Htv.
-      { destruct (Hstore2 base KPorts v0 Hin) as [E|E]; [rewrite Es; now left|congruence|assumption]. }
-      rewrite Es. cbn [getconf_value]. rewrite (tor_value_unquote _ Htv). cbn [pyval_is_str].
-      rewrite (proj1 (proj2 (proj2 (tor_value_facts _ Htv)))). rewrite auto_agree, Ha. cbn [orb bind].
+      assert (m_defaults st = ddict) as Hdd by (destruct Hb as [_ [_ [_ [_ [_ [H6 _]]]]]]; exact H6).
+      rewrite Hdd.
+      destruct (boot_ports base Hin) as [L [HL [Hok Hty]]]. rewrite HL.
       eexists. split; [reflexivity|].
-      apply set_option; [assumption|assumption|].
-      intros st' Hc _. unfold synced. rewrite Es. now apply boot_ports.
+      apply set_option'; [assumption|assumption|exact (proj1 (opt_facts _ _ Hin))|reflexivity|now rewrite Hdd|].
+      intros st' Hc _. unfold synced. eapply ports_lines; eassumption.
     - exists st. split; [reflexivity|]. now rewrite app_nil_r.
   Qed.
 
@@ -504,19 +682,20 @@ Section Boot.
       { pose proof opts_nodup as Hnd. rewrite Hopts1 in Hnd. cbn [app] in Hnd. rewrite map_app in Hnd. cbn [map fst] in Hnd.
         exact (nodup_ci_app_fresh _ _ _ Hnd). }
       pose proof (kind_not_ports _ _ Ekt) as Hnp.
-      assert (m_defaults st1 = ddict) as Hdd by (destruct Hb1 as [_ [_ [_ [_ [_ H6]]]]]; exact H6).
+      assert (m_defaults st1 = ddict) as Hdd by (destruct Hb1 as [_ [_ [_ [_ [_ [H6 _]]]]]]; exact H6).
       destruct (is_list_kind k) eqn:Elk.
       + (* list kinds *)
         assert (k = KLine \/ k = KComma) as Hk by (destruct k; try discriminate Elk; try congruence; auto).
         assert (ty_of k = (pk_of k, vk_of k, true)) as Hty by (destruct Hk as [-> | ->]; reflexivity).
         rewrite Hty. cbv zeta. rewrite (fresh_real_name _ _ _ Hb1 Hfresh).
         cbn [m_parsers m_listp m_defaults m_config m_unsaved].
-        destruct (boot_list st1 n k (store_get store_ n) Hin Hk (Hstore n k Hin)) as [l [Hp _]].
-        rewrite Hp. cbn [bind]. rewrite Hdd. fold (dfl_atoms n).
+        destruct (boot_list st1 n k (store_get store_ n) Hin Hk (Hstore n k Hin)) as [l [l' [Hp [Hl' _]]]].
+        rewrite Hp. cbn [bind]. rewrite Hdd, Hl'. cbn [bind].
         eexists. split; [reflexivity|]. rewrite <- Hty.
-        apply set_option'; [assumption|assumption|now rewrite Hdd|].
-        intros st' Hc _. destruct (boot_list st' n k (store_get store_ n) Hin Hk (Hstore n k Hin)) as [l1 [Hp1 Hs]].
-        rewrite Hp in Hp1. inversion Hp1. subst l1. now apply Hs.
+        apply set_option'; [assumption|assumption|exact (proj1 (opt_facts _ _ Hin))|now rewrite Elk|now rewrite Hdd|].
+        intros st' Hc _. destruct (boot_list st' n k (store_get store_ n) Hin Hk (Hstore n k Hin)) as [l1 [l1' [Hp1 [Hl1' Hs]]]].
+        rewrite Hp in Hp1. inversion Hp1. subst l1. rewrite Hl' in Hl1'. inversion Hl1'. subst l1'.
+        unfold synced. rewrite (estore_other n k Hin Hnp). now apply Hs.
       + (* scalar kinds *)
         assert (ty_of k = (pk_of k, vk_of k, false)) as Hty by (destruct k; try discriminate Elk; try congruence; reflexivity).
         rewrite Hty. cbv zeta. rewrite (fresh_real_name _ _ _ Hb1 Hfresh).
@@ -524,9 +703,10 @@ Section Boot.
         destruct (boot_scalar st1 n k (store_get store_ n) Hin Elk (Hstore n k Hin) (fun v Hv => Hstore2 n k v Hin Hv)) as [parsed [Hp _]].
         unfold scalar_expr in Hp. rewrite Hp. cbn [bind].
         eexists. split; [reflexivity|]. rewrite <- Hty.
-        apply set_option'; [assumption|assumption|now rewrite Hdd|].
+        apply set_option'; [assumption|assumption|exact (proj1 (opt_facts _ _ Hin))|now rewrite Elk|now rewrite Hdd|].
         intros st' Hc Hd'. destruct (boot_scalar st' n k (store_get store_ n) Hin Elk (Hstore n k Hin) (fun v Hv => Hstore2 n k v Hin Hv)) as [parsed1 [Hp1 Hs]].
-        unfold scalar_expr in Hp1. rewrite Hp in Hp1. inversion Hp1. subst parsed1. unfold synced. apply Hs; [assumption|now rewrite Hd'].
+        unfold scalar_expr in Hp1. rewrite Hp in Hp1. inversion Hp1. subst parsed1. unfold synced.
+        rewrite (estore_other n k Hin Hnp). apply Hs; [assumption|now rewrite Hd'].
   Qed.
 
   (* one row of config/names *)
@@ -591,8 +771,11 @@ Section Boot.
                    m_defaults := ddict; m_config := []; m_unsaved := [] |}).
     assert (binv st0 (options [])) as Hb0.
     { unfold binv. cbn [options].
-      split; [reflexivity|]. split; [reflexivity|]. split; [intros c0 k0 []|]. split; [intros c0 k0 []|]. split; reflexivity. }
-    destruct (boot_rows table [] st0 eq_refl Hb0) as [st1 [E1 [H1 [H2 [H3 [H4 [H5 H6]]]]]]].
+      split; [reflexivity|]. split; [reflexivity|]. split; [intros c0 k0 []|]. split; [intros c0 k0 []|].
+      split; [reflexivity|]. split; [reflexivity|]. split; [intros c0 k0 []|]. intros x Hx. right.
+      cbn [m_listp st0 mem_bytes] in Hx. apply orb_true_iff in Hx as [Hx|Hx]; [apply beqb_eq in Hx; left; exact Hx|].
+      apply orb_true_iff in Hx as [Hx|Hx]; [apply beqb_eq in Hx; right; left; exact Hx|discriminate]. }
+    destruct (boot_rows table [] st0 eq_refl Hb0) as [st1 [E1 [H1 [H2 [H3 [H4 [H5 [H6 [H7 H8]]]]]]]]].
     rewrite E1. cbn [bind]. eexists. split; [reflexivity|].
     set (e := bs "EphemeralOnionServices"). set (d := bs "DetachedOnionServices").
     assert (In e reserved_names) as He by (cbn; auto).
@@ -604,7 +787,7 @@ Section Boot.
       apply dget_dset_other. intros E. eapply reserved_not_option; [exact Hin|exact He|now symmetry]. }
     assert (m_unsaved (set_config (set_config st1 e (CList false [])) d (CList false [])) = []) as Hun.
     { unfold set_config. cbn [m_unsaved]. rewrite H5. reflexivity. }
-    constructor; cbn [mon0 m_st m_det m_f1 m_f2 m_f3 init_ost s_store s_pend]; auto.
+    constructor; cbn [mon0 m_st m_det m_f1 m_f3 eff_ost s_store s_pend]; auto.
     - intros cn k Hin. unfold dmem. rewrite (Hcfg _ _ Hin).
       assert (In cn (map fst (m_config st1))) as Hk by (rewrite H2; now apply (in_map fst) in Hin).
       apply dget_mem_keys in Hk. exact Hk.
@@ -618,29 +801,18 @@ Section Boot.
 End Boot.
 
 (* ------------------------------------------------------------------ from the envelope predicates *)
-Definition benign_boot (i : cfg_input) : bool :=
-  negb (portlist_bootstrap_irregular i) && negb (comma_default_unsplit i).
-
 Theorem bootstrap_synced i :
   table_ok (i_table i) = true -> store_ok (i_table i) (i_store i) = true ->
-  defaults_ok (options (i_table i)) (i_defaults i) = true -> benign_boot i = true ->
+  defaults_ok (options (i_table i)) (i_defaults i) = true ->
   exists st0, m_bootstrap i = Ok st0 /\ Rel (options (i_table i)) (i_defaults i) st0 (mon0 i).
 Proof.
-  intros Htab Hst Hdf Hb. unfold benign_boot in Hb. apply andb_true_iff in Hb as [Hb1 Hb4].
-  apply negb_true_iff in Hb1, Hb4.
-  unfold store_ok in Hst. apply andb_true_iff in Hst as [Hst _]. apply andb_true_iff in Hst as [Hs1 Hs2].
+  intros Htab Hst Hdf.
+  unfold store_ok in Hst. apply andb_true_iff in Hst as [Hst Hs4]. apply andb_true_iff in Hst as [Hst _].
+  apply andb_true_iff in Hst as [Hs1 Hs2].
   apply bootstrap_rel; try assumption.
-  - intros cn d Hin Hd. unfold comma_default_unsplit in Hb4.
-    pose proof (proj1 (existsb_false_forall _ _) Hb4 (cn, KComma) Hin) as X. cbv beta in X. cbn [fst snd] in X.
-    exact (proj1 (existsb_false_forall _ _) X d Hd).
   - intros cn k Hin. exact (proj1 (forallb_forall _ _) Hs1 (cn, k) Hin).
-  - intros cn Hin. unfold portlist_bootstrap_irregular in Hb1.
-    assert (In cn (port_options i)) as Hp.
-    { unfold port_options. apply in_concat. exists [cn]. split; [|now left].
-      apply in_map_iff. exists (cn, KPorts). auto. }
-    pose proof (proj1 (existsb_false_forall _ _) Hb1 cn Hp) as X.
-    cbv beta in X. revert X. destruct (store_get (i_store i) cn) as [|v [|v2 t]]; intros X; try discriminate X. exists v.
-    apply orb_false_iff in X as [X1 X2]. split; [reflexivity|]. split; [exact X1|]. intros ->. discriminate X2.
+  - intros cn v Hin Hv. pose proof (proj1 (forallb_forall _ _) Hs4 (cn, KPorts) Hin) as X. cbn [fst snd] in X.
+    exact (proj1 (forallb_forall _ _) X v Hv).
   - intros cn k v Hin Hv. unfold store_get in Hv. destruct (dget cn (i_store i)) as [l|] eqn:E; [|destruct Hv].
     apply dget_In in E. pose proof (proj1 (forallb_forall _ _) Hs2 (cn, l) E) as X. cbn [fst snd] in X.
     apply andb_true_iff in X as [_ X]. pose proof (proj1 (forallb_forall _ _) X v Hv) as Y.
